@@ -1,9 +1,9 @@
 package syncer
 
 import (
-	"github.com/mgtv-tech/redis-GunYu/config"
 	"context"
 	"fmt"
+	"github.com/mgtv-tech/redis-GunYu/config"
 	"strings"
 	"testing"
 	"time"
@@ -135,12 +135,12 @@ func c14cStream(lanes []int) []sItem {
 }
 
 type c14cScenario struct {
-	Lanes      []int  `json:"lanes"`
-	Cfg        biCfg  `json:"cfg"`
-	MaxCrashes int    `json:"max_crashes"`
-	Idle       int    `json:"idle_restarts"`
-	Cluster    bool   `json:"cluster"`
-	Soft       bool   `json:"soft"` // explore one in-process restart (same RedisOutput object) after a lost-connection stop
+	Lanes      []int `json:"lanes"`
+	Cfg        biCfg `json:"cfg"`
+	MaxCrashes int   `json:"max_crashes"`
+	Idle       int   `json:"idle_restarts"`
+	Cluster    bool  `json:"cluster"`
+	Soft       bool  `json:"soft"` // explore one in-process restart (same RedisOutput object) after a lost-connection stop
 	// Pre: an earlier life of the same namespace (not judged): these units were replayed from a
 	// low offset, then the source answered with a full resync under the same run id (snapshot
 	// ending where the judged stream starts) and the tool stopped before replaying anything.
@@ -173,6 +173,30 @@ type c14cScenario struct {
 	// with the previous one as its second id; every start runs (*syncer).updateCheckpoint,
 	// StartPoint(ids), SetRunId(ids[0]) (see c14Scenario.Rekey)
 	Rekey int `json:"rekey,omitempty"`
+	// TopoPre: the first TopoPre steps of Topo have taken place between the tool's start (its cluster client
+	// has read the slot map) and the first stream item: the client's slot map is STALE from the first unit on.
+	// They are applied at no cost in deviations; the remaining steps are placed by the explorer. A step
+	// may carry a lane suffix ("O1", "M1", "K1", "F1"): it then concerns the slot of lane 1's key (its
+	// owner -> node 1) instead of lane 0's, so two slots of two different nodes can have moved
+	TopoPre int `json:"topo_pre,omitempty"`
+}
+
+// c14cTopoLane splits a topology step into its operation and the lane whose slot it concerns
+func c14cTopoLane(st string) (op string, lane int) {
+	if len(st) == 2 && st[1] >= '0' && st[1] <= '1' {
+		return st[:1], int(st[1] - '0')
+	}
+	return st, 0
+}
+
+// c14cMigratingLanes: the lanes whose slot the script touches
+func c14cMigratingLanes(topo []string) map[int]bool {
+	out := map[int]bool{}
+	for _, st := range topo {
+		_, l := c14cTopoLane(st)
+		out[l] = true
+	}
+	return out
 }
 
 func c14cExec(t *testing.T, scn c14cScenario, ch *mc.Chooser) (rec c14Rec, machinery string) {
@@ -345,12 +369,13 @@ func c14cExec(t *testing.T, scn c14cScenario, ch *mc.Chooser) (rec c14Rec, machi
 			crashed = false
 			flushed := false
 			applyTopo := func(st string) {
-				slot := ref.HashSlotS(c14cKeys[0])
-				switch st {
+				op, lane := c14cTopoLane(st)
+				slot := ref.HashSlotS(c14cKeys[lane])
+				switch op {
 				case "M":
 					cl.SetMigrating(slot, 1)
 				case "K":
-					cl.MoveKey(slot, c14cKeys[0])
+					cl.MoveKey(slot, c14cKeys[lane])
 				case "F":
 					cl.Finish(slot)
 				case "O":
@@ -358,6 +383,13 @@ func c14cExec(t *testing.T, scn c14cScenario, ch *mc.Chooser) (rec c14Rec, machi
 				}
 			}
 			for guard := 0; guard < 200 && !crashed && !run.ended; guard++ {
+				if topo < scn.TopoPre && topo < len(scn.Topo) {
+					// the cluster changed after the client read its slot map and before the first item
+					run.wait()
+					applyTopo(scn.Topo[topo])
+					topo++
+					continue
+				}
 				pk := listParked()
 				type act struct {
 					kind string
@@ -523,6 +555,15 @@ func oracleC19Bi(scn c14cScenario, rec *c14Rec) mc.Result {
 		src[k] = append(src[k], fmt.Sprintf("v%d", i))
 	}
 	last := map[string]int{}
+	// a history in which the client's slot map was stale from the first unit on (TopoPre) has its own signature
+	staleSfx := ""
+	if scn.TopoPre > 0 {
+		staleSfx = ":stale-map"
+	}
+	migrKeys := map[string]bool{}
+	for l := range c14cMigratingLanes(scn.Topo) {
+		migrKeys[c14cKeys[l]] = true
+	}
 	type seen struct{ run, n int }
 	perRun := map[string]map[int]int{}
 	runOf := func(seq int) int {
@@ -552,7 +593,7 @@ func oracleC19Bi(scn c14cScenario, rec *c14Rec) mc.Result {
 			return mc.Violation("a unit's command was executed outside a MULTI/EXEC", "C19:bisync:not-atomic:"+mode, map[string]interface{}{"command": r.String(), "history": describe()})
 		}
 		if p > last[k]+1 {
-			return mc.Violation("per-key order broken: a write took effect before an earlier write of the same key", "C19:bisync:key-order:"+mode, map[string]interface{}{"key": k, "value": v, "history": describe()})
+			return mc.Violation("per-key order broken: a write took effect before an earlier write of the same key", "C19:bisync:key-order:"+mode+staleSfx, map[string]interface{}{"key": k, "value": v, "history": describe()})
 		}
 		last[k] = p
 		ru := runOf(r.Seq)
@@ -566,7 +607,7 @@ func oracleC19Bi(scn c14cScenario, rec *c14Rec) mc.Result {
 			// slot that migrates (its own redirect was followed twice) or one of a slot whose owner never
 			// changed (it only travelled behind a redirected transaction)
 			sig := "C19:bisync:repeat-in-run:" + mode
-			if len(scn.Topo) > 0 && k != c14cKeys[0] {
+			if len(scn.Topo) > 0 && !migrKeys[k] {
 				sig += ":behind-redirect"
 			}
 			return mc.Violation("a unit was committed twice within one run", sig, map[string]interface{}{"write": k + "=" + v, "run": ru, "history": describe()})
